@@ -11,6 +11,7 @@ import (
 	"path/filepath"
 	"sort"
 	"strings"
+	"time"
 
 	"github.com/MichaelMure/git-bug/cache"
 	"github.com/MichaelMure/git-bug/entities/bug"
@@ -129,6 +130,9 @@ func (w *world) close() {
 func copyTree(src, dst string, skip func(rel string) bool) error {
 	return filepath.Walk(src, func(p string, info os.FileInfo, err error) error {
 		if err != nil {
+			if os.IsNotExist(err) {
+				return nil // a temporary file of a write in flight that is gone again
+			}
 			return err
 		}
 		rel, _ := filepath.Rel(src, p)
@@ -144,6 +148,9 @@ func copyTree(src, dst string, skip func(rel string) bool) error {
 		}
 		in, err := os.Open(p)
 		if err != nil {
+			if os.IsNotExist(err) {
+				return nil
+			}
 			return err
 		}
 		defer in.Close()
@@ -430,7 +437,18 @@ func (w *world) do(s Step) {
 		w.k++
 		t, m := fmt.Sprintf("wtitle%d", w.k), fmt.Sprintf("wmessage%d", w.k)
 		w.words = append(w.words, t, m)
-		b, _, err := r.c.Bugs().New("bug "+t, "first message "+m)
+		var b *cache.BugCache
+		var err error
+		if w.k%2 == 0 {
+			// every other bug is opened by somebody nobody has heard of yet: the pull that brings the bug brings its author
+			var who *cache.IdentityCache
+			who, err = r.c.Identities().New(fmt.Sprintf("guest %d", w.k), fmt.Sprintf("guest%d@example.org", w.k))
+			if err == nil {
+				b, _, err = r.c.Bugs().NewRaw(who, time.Now().Unix(), "bug "+t, "first message "+m, nil, nil)
+			}
+		} else {
+			b, _, err = r.c.Bugs().New("bug "+t, "first message "+m)
+		}
 		if err != nil {
 			ev.Err = err.Error()
 		} else {
@@ -468,6 +486,9 @@ func (w *world) do(s Step) {
 	case "Pull":
 		if err := r.c.Pull("origin"); err != nil {
 			ev.Err = err.Error()
+			// a pull that gives up at the first refused entity returns while the goroutines merging the others are still at
+			// work: let them finish before anybody looks at the repository
+			time.Sleep(time.Second)
 		}
 	case "Fetch":
 		if _, err := r.c.Fetch("origin"); err != nil {
